@@ -400,6 +400,11 @@ class Escape:
             add("ValueError", "int() of header bytes")
         if isinstance(call.func, ast.Name) and call.func.id == "len" and call.args:
             out += self._optional_use(fr, f, st, call.args[0], "passed to len()")
+        # S5b: Enum lookup by value: Enum(x) raises ValueError unless x is a member
+        if len(call.args) == 1 and not call.keywords and isinstance(call.func, (ast.Name, ast.Attribute)) and not isinstance(call.args[0], ast.Constant):
+            t = self.repo.resolve_name(fr.mod, call.func)
+            if t is not None and t[0] == "class" and any(attr_chain(b) in ("Enum", "IntEnum", "enum.Enum", "enum.IntEnum") for b in t[2].bases):
+                add("ValueError", f"{t[2].name}(value): enum lookup of a value that may not be a member")
 
         for cal in callees:
             if isinstance(cal, FuncRef):
